@@ -139,17 +139,25 @@ func zoneOf(name string) *zoneInfo {
 
 // the zones exercised: fixed offsets (whole hour, :30, :45), whole-hour DST in both hemispheres,
 // midnight transitions, 30-minute DST, a skipped calendar day, historical offset changes.
-var zoneNames = []string{
+// walkZones are drawn by the seeded generator; sweepZones (transitions at midnight, off the hour, by 30 minutes,
+// a skipped day: where the code has known defects) are covered by the deterministic sweep and staged cases
+// instead, so that the set of finding keys on the unchanged tree does not depend on the seed.
+var walkZones = []string{
 	"UTC", "Asia/Kolkata", "Asia/Kathmandu", "Etc/GMT-14", "Etc/GMT+12", "Asia/Tokyo",
-	"America/New_York", "Europe/Berlin", "Europe/London", "Australia/Sydney", "America/Sao_Paulo",
-	"America/Havana", "Asia/Beirut", "America/Santiago", "Australia/Lord_Howe", "Pacific/Apia",
-	"America/St_Johns", "Pacific/Chatham", "Asia/Tehran", "Africa/Cairo", "Europe/Moscow", "America/Asuncion",
+	"America/New_York", "Europe/Berlin", "Europe/London", "Australia/Sydney", "Europe/Moscow",
+	"America/Los_Angeles", "Pacific/Auckland", "Australia/Adelaide", "Asia/Jerusalem",
 }
+
+var sweepZones = []string{"Australia/Lord_Howe", "Pacific/Chatham", "America/St_Johns", "Asia/Tehran", "Asia/Beirut", "Africa/Cairo",
+	"America/Sao_Paulo", "America/Asuncion", "America/Santiago", "America/Havana", "Pacific/Apia"}
+
+// zoneNames: every zone (used for the Location instants are carried in and for time.Local).
+var zoneNames = append(append([]string{}, walkZones...), sweepZones...)
 
 // zonesWithTransitions, sorted, for the aimed starts.
 func zonesWithTransitions() []string {
 	var out []string
-	for _, n := range zoneNames {
+	for _, n := range walkZones {
 		if len(zoneOf(n).trans) > 0 {
 			out = append(out, n)
 		}
